@@ -147,6 +147,59 @@ func groupFamilies(ts []tuple) families {
 	return f
 }
 
+// familyPacks returns every non-trivial colliding family (connected component of "same concatenation" or "same
+// ','-joined id") of alphabet^n, packed whole into groups of about cap tuples, in a fixed order.
+func familyPacks(n, cap int) [][]tuple {
+	ts := allTuples(n, alphabet)
+	parent := make([]int, len(ts))
+	for i := range parent {
+		parent[i] = i
+	}
+	var find func(int) int
+	find = func(x int) int {
+		for parent[x] != x {
+			parent[x] = parent[parent[x]]
+			x = parent[x]
+		}
+		return x
+	}
+	f := groupFamilies(ts)
+	for _, g := range []map[string][]int{f.byConcat, f.byJoined} {
+		for _, k := range sortedKeys(g) {
+			m := g[k]
+			for _, i := range m[1:] {
+				parent[find(i)] = find(m[0])
+			}
+		}
+	}
+	comps := map[int][]tuple{}
+	var roots []int
+	for i, t := range ts {
+		r := find(i)
+		if comps[r] == nil {
+			roots = append(roots, r)
+		}
+		comps[r] = append(comps[r], t)
+	}
+	sort.Ints(roots)
+	var packs [][]tuple
+	var cur []tuple
+	for _, r := range roots {
+		if len(comps[r]) < 2 {
+			continue
+		}
+		if len(cur) > 0 && len(cur)+len(comps[r]) > cap {
+			packs = append(packs, cur)
+			cur = nil
+		}
+		cur = append(cur, comps[r]...)
+	}
+	if len(cur) > 0 {
+		packs = append(packs, cur)
+	}
+	return packs
+}
+
 // pairClass is the design's tuple pair class for one tuple within its case.
 func (f families) pairClass(t tuple) (class string, nontrivial bool) {
 	ec := len(f.byConcat[t.concat()]) > 1
